@@ -22,12 +22,12 @@ DEPS["vcd"] = '"0.7.0"'      # the real crate (same version as /repo/Cargo.lock)
 
 # attribute sets. `small`: every big-integer entry point panics (E9) - decode/encode of <=64-bit values must not reach them.
 # `vcd`: Value::payload()/mask_xz() legitimately go through BigUint::from(u64) + BigUint::bit, so only the ValueBigUint
-# constructors / MaskCache::get are stubbed. `big`: nothing stubbed (real num-bigint).
+# constructors / MaskCache::get are stubbed. `mod`: as `vcd` + Value::to_vcd_value replaced by its contract (proved separately).
 CTOR_STUBS = "\n".join(l for l in VL.STUB_ATTRS.splitlines() if "kani::stub(crate::value::" in l)
 ATTRS = {
     "vp_small": VL.STUB_ATTRS,
     "vp_vcd": CTOR_STUBS,
-    "vp_big": "",
+    "vp_mod": CTOR_STUBS + "\n#[cfg_attr(kani, kani::stub(crate::value::Value::to_vcd_value, crate::spec::to_vcd_value_contract))]",
 }
 
 HARNESSES = [
@@ -38,17 +38,17 @@ HARNESSES = [
     ("roundtrip_decode_encode", "proof", "From<&Value> for Vec<SvLogicVecVal>", None),
     ("roundtrip_encode_decode", "proof", "From<&[SvLogicVecVal]> for Value", None),
     ("vcd_value_bit", "proof", "Value::to_vcd_value", None),
-    ("fst_bits", "proof", "Value::to_fst_bits", None),
+    ("fst_bits", "bounded", "Value::to_fst_bits", "width<=8"),
     ("vcd_iter_msb_first", "proof", "VcdValueIter::next", None),
-    ("big_decode_len3", "bounded", "From<&[SvLogicVecVal]> for Value", "len==3 (width 96)"),
-    ("big_encode_w65_96", "bounded", "From<&Value> for Vec<SvLogicVecVal>", "65<=width<=96"),
+    ("vcd_iter_direct", "bounded", "VcdValueIter::next", "width<=8"),
     ("canary_encode", "canary", "From<&Value> for Vec<SvLogicVecVal>", None),
 ]
 
 TRUSTED = {
     r"kani::assume\(wf_sized": "harness precondition: representation invariant of a sized <=64-bit value (1 <= width <= 64, payload/mask_xz have no bit at or above "
                                "the width; established by unit value64 for every constructor/operation)",
-    r"kani::assume\(p\[2\] & !top": "harness precondition of the >64-bit stand-in: payload/mask_xz have no bit at or above the width",
+    r"kani::stub\(crate::value::Value::to_vcd_value": "modular step: in vcd_iter_msb_first Value::to_vcd_value is replaced by its executable contract spec::to_vcd_value_contract "
+                                                     "(which asserts its precondition); that the real function equals the contract for every wf value and every i is obligation kani:svlogic:vcd_value_bit",
     r"kani::assume\(": "harness quantifier ranges (bit index / word index within the array or width; width range of the bounded stand-ins)",
 }
 TRUSTED.update(VL.STUB_TRUST)
@@ -57,7 +57,7 @@ TRUSTED.update(VL.STUB_TRUST)
 def expand(text):
     def f(m):
         return "#[cfg_attr(kani, kani::proof)]\n#[cfg_attr(kani, kani::unwind(%s))]\n%s" % (m.group(2), ATTRS[m.group(1)])
-    return re.sub(r"#\[(vp_small|vp_vcd|vp_big)\((\d+)\)\]", f, text)
+    return re.sub(r"#\[(vp_small|vp_vcd|vp_mod)\((\d+)\)\]", f, text)
 
 
 def build(ctx, res):
@@ -74,8 +74,8 @@ def build(ctx, res):
         "encode (wf value, width 1..=64)": "len == ceil(width/32); for every word k, bit j: Annex-H meaning of (aval_k>>j, bval_k>>j) == bit 32k+j of the value, == 0 for padding bits >= width",
         "round trips": "encode(decode(s)) == s for every s of 1 and 2 words; decode(encode(v)) has v's payload and mask_xz, width rounded up to a multiple of 32, unsigned",
         "to_vcd_value": "for every i: u64: V0/V1/X/Z exactly for bit i of the value (bits >= width read 0); From<&Value> for vcd::Value is bit 0",
-        "to_fst_bits": "length == width; entry width-1-k == '0'/'1'/'x'/'z' for bit k, for every k < width (MSB first)",
-        "VcdValueIter": "yields exactly width items; the n-th item is bit width-1-n; then None",
+        "to_fst_bits": "[bounded width<=8] length == width; entry width-1-k == '0'/'1'/'x'/'z' for bit k, for every k < width (MSB first)",
+        "VcdValueIter": "[all widths 1..=64, to_vcd_value by contract; + direct stand-in width<=8] yields exactly width items; the n-th item is bit width-1-n; then None",
         "requires": "wf_sized(v): 1 <= width <= 64 and payload/mask_xz have no bit at or above width (both signednesses)",
     })
     res.samples.append({"obligation": "kani:svlogic:encode_bits", "contract": res.clauses["encode (wf value, width 1..=64)"]})
